@@ -75,6 +75,8 @@ RULES = [
      lambda m: 'RoaringBitmap::singleton_(%s)' % (m.group(1) or m.group(2))),
     ('R7d', 'RoaringBitmap::from_sorted_iter(v).unwrap() -> RoaringBitmap::from_sorted_vec_unwrap_(v) (requires v strictly increasing)',
      re.compile(r'RoaringBitmap::from_sorted_iter\((\w+)\)\.unwrap\(\)'), r'RoaringBitmap::from_sorted_vec_unwrap_(\1)'),
+    ('R6e', '`for _ in A..B {` -> `let mut cnt__ = A; while cnt__ < B { cnt__ += 1;` (counting loop without a loop variable; gives the invariant a name for the progress)',
+     re.compile(r'for _ in (\w+)\.\.(\w+) \{'), r'let mut cnt__ = \1; while cnt__ < \2 { cnt__ += 1;'),
     ('R7b', 'X.map(Some) -> X.map_some_()', re.compile(r'\.map\(Some\)'), '.map_some_()'),
     # (R2 retired: heed's remap_* type-state is modelled natively by DatabaseG<DC: DataCodec>)
     ('R2', 'NodeCodec<D> -> NodeCodec (codec marker of the uninterpreted metric)', re.compile(r'\bNodeCodec<(?:D|ND)>'), 'NodeCodec'),
@@ -235,6 +237,7 @@ class Block:
         self.hints = []    # (where, anchor, text)
         self.noglobal = []
         self.optional = False
+        self.stub = False
 
 
 def parse_template(path, units_dir):
@@ -277,6 +280,11 @@ def parse_template(path, units_dir):
                     b.attrs.append(ln[len('//@attr '):]); cur = None
                 elif ln.startswith('//@noglobal '):
                     b.noglobal += ln.split()[1:]; cur = None
+                elif ln.startswith('//@stub'):
+                    b.stub = True; cur = None
+                elif ln.startswith('//@specfile '):
+                    sf = os.path.join(units_dir, ln.split(None, 1)[1].strip())
+                    b.spec.extend(open(sf).read().rstrip('\n').split('\n')); cur = None
                 elif ln.startswith('//@spec'):
                     cur = b.spec
                 elif ln.startswith('//@loopstart '):
@@ -471,6 +479,10 @@ def extract_block(b: Block, snapshot: str):
     body_open = rustlex.next_open_brace(m2, mfn.start())
     sig = _sig_rewrite(text, m2, mfn.start(), body_open, b.spec, b.rename, b.fn)
     sig = re.sub(r'\bunsafe\s+fn\b', 'fn', sig)
+    if b.stub:
+        # contract-only stub of a function verified in another unit: the caller is checked against the contract, not the body
+        text = text[:body_open] + '{ unimplemented!() }\n'
+        b.attrs = ['#[verifier::external_body]'] + [a for a in b.attrs if 'external_body' not in a]
     out = text[:mfn.start()] + sig + text[body_open:]
     attrs_txt = ''.join(a + '\n' for a in b.attrs)
     body_open_off = len(attrs_txt) + mfn.start() + len(sig)
@@ -496,6 +508,7 @@ def extract_block(b: Block, snapshot: str):
         'rules_fired': fired,
         'sha256_src': hashlib.sha256(raw.encode()).hexdigest(),
         'sha256_extracted': hashlib.sha256(out.encode()).hexdigest(),
+        'stub': b.stub,
         'line_map': line_map,
         'body_open_off': body_open_off,
     }
